@@ -352,6 +352,73 @@ def _stored_names(fn) -> Set[str]:
     return out
 
 
+def _sink_returns(fn: ast.FunctionDef) -> None:
+    """`if c: r = A else: r = B` / `try: r = A except E: r = B`, immediately followed by `return r`, is the multi-exit form
+    `if c: return A else: return B` / `try: return A except E: return B` (r is a plain local, not read in between)."""
+    def ends_with_assign(block, x):
+        if not block:
+            return False
+        last = block[-1]
+        if isinstance(last, ast.Assign) and len(last.targets) == 1 and isinstance(last.targets[0], ast.Name) and last.targets[0].id == x:
+            return True
+        if isinstance(last, ast.If) and last.orelse:
+            return ends_with_assign(last.body, x) and ends_with_assign(last.orelse, x)
+        if isinstance(last, ast.Try) and not last.finalbody and not last.orelse and last.handlers:
+            return ends_with_assign(last.body, x) and all(ends_with_assign(h.body, x) for h in last.handlers)
+        if isinstance(last, ast.Raise):
+            return True
+        return False
+
+    def sink(block, x):
+        last = block[-1]
+        if isinstance(last, ast.Assign):
+            block[-1] = ast.copy_location(ast.Return(value=last.value), last)
+        elif isinstance(last, ast.If):
+            sink(last.body, x)
+            sink(last.orelse, x)
+        elif isinstance(last, ast.Try):
+            sink(last.body, x)
+            for h in last.handlers:
+                sink(h.body, x)
+
+    def blocks(node):
+        for n in ast.walk(node):
+            for f in ("body", "orelse", "finalbody"):
+                b = getattr(n, f, None)
+                if isinstance(b, list) and b and isinstance(b[0], ast.stmt):
+                    yield b
+            if isinstance(n, ast.Try):
+                for h in n.handlers:
+                    yield h.body
+    changed = True
+    while changed:
+        changed = False
+        for blk in blocks(fn):
+            if len(blk) >= 2 and isinstance(blk[-1], ast.Return) and isinstance(blk[-1].value, ast.Name) and isinstance(blk[-2], (ast.If, ast.Try)):
+                x = blk[-1].value.id
+                st = blk[-2]
+                if isinstance(st, ast.If) and not st.orelse:
+                    continue
+                if isinstance(st, ast.Try) and (st.finalbody or st.orelse or not st.handlers):
+                    continue
+                # x is read nowhere inside the statement (each arm only ends by assigning it)
+                reads = [n for n in ast.walk(st) if isinstance(n, ast.Name) and n.id == x and isinstance(n.ctx, ast.Load)]
+                if reads or not ends_with_assign([st], x):
+                    continue
+                sink([st], x) if False else None
+                if isinstance(st, ast.If):
+                    sink(st.body, x)
+                    sink(st.orelse, x)
+                else:
+                    sink(st.body, x)
+                    for h in st.handlers:
+                        sink(h.body, x)
+                del blk[-1]
+                changed = True
+                break
+    ast.fix_missing_locations(fn)
+
+
 def _collapse_result_copies(fn: ast.FunctionDef) -> None:
     """Inlining a helper that returns one of its locals leaves `ret__k = None; ...; ret__k = v__k; x = ret__k`: three names for one
     object.  A machine-made result variable (`ret__k`) that is assigned a plain local exactly once, after a dead `= None`, is that local;
@@ -523,6 +590,10 @@ class Normalizer:
     def run(self, fn: ast.FunctionDef) -> ast.FunctionDef:
         new = copy.deepcopy(fn)
         _spread_tuple_stars(new)
+        try:
+            self.resolve.current_fn = fn
+        except AttributeError:
+            pass
         self._assigned_names = {n.id for n in ast.walk(new) if isinstance(n, ast.Name) and isinstance(n.ctx, (ast.Store, ast.Del))} | \
             {a.arg for a in new.args.args + new.args.kwonlyargs + new.args.posonlyargs}
         # nested one-expression functions / lambdas bound to a local name: called through that name they are the expression
@@ -538,6 +609,7 @@ class Normalizer:
         new.body = self._block(new.body, self.cls, self.depth, top=True)
         if self.inlined:
             _collapse_result_copies(new)
+        _sink_returns(new)
         recs = getattr(self, "records", None)
         if recs:
             _scalar_replace_records(new, recs)
@@ -940,6 +1012,15 @@ class Normalizer:
             if (isinstance(v, ast.Call) and (A.dotted(v.func) or "") in ("chain", "itertools.chain") and not v.keywords) or \
                     (isinstance(v, ast.Tuple) and 0 < len(v.elts) <= 4 and all(isinstance(x, (ast.Name, ast.Attribute, ast.Constant)) for x in v.elts)):
                 binds[st.targets[0].id] = v
+        # setattr(obj, "name", v) with a literal identifier is the assignment obj.name = v
+        if isinstance(st, ast.Expr) and isinstance(st.value, ast.Call) and isinstance(st.value.func, ast.Name) and st.value.func.id == "setattr" \
+                and len(st.value.args) == 3 and not st.value.keywords and isinstance(st.value.args[1], ast.Constant) \
+                and isinstance(st.value.args[1].value, str) and st.value.args[1].value.isidentifier() \
+                and isinstance(st.value.args[0], (ast.Name, ast.Attribute)):
+            o, nm, v = st.value.args
+            asg = ast.copy_location(ast.Assign(targets=[ast.Attribute(value=o, attr=nm.value, ctx=ast.Store())], value=v, lineno=st.lineno), st)
+            ast.fix_missing_locations(asg)
+            return self._stmt(asg, cls, depth)
         if isinstance(st, ast.Match):
             low = self._lower_match(st)
             if low is not None:
@@ -1926,6 +2007,21 @@ def make_resolver(repo, module, private_only: bool = True, also: Optional[Set[st
             if decs or not fn.args.args or fn.args.args[0].arg != "self":
                 return None
             return f"{k2.name}.{fn.name}", fn, k, False     # False: the receiver is bound to the helper's `self`
+        cur = getattr(resolve, "current_fn", None)
+        if isinstance(f, ast.Attribute) and isinstance(f.value, ast.Name) and f.value.id not in ("self", "cls") and cur is not None and wanted(f.attr):
+            # local.<helper>(...) where `local` is bound exactly once, to a fresh instance of a class of the package
+            k = _class_of_expr(repo, f.value, cur)
+            params = {a.arg for a in cur.args.args + cur.args.kwonlyargs + cur.args.posonlyargs}
+            if k is not None and f.value.id not in params:
+                r = repo.lookup(k, f.attr)
+                if r is not None:
+                    k2, fn = r
+                    body = A.strip_docstring(fn.body)
+                    decs = [A.dotted(d) or "" for d in fn.decorator_list]
+                    if f.attr not in k2.properties and not decs and fn.args.args and fn.args.args[0].arg == "self" \
+                            and not (len(body) == 1 and isinstance(body[0], ast.Raise)) \
+                            and not any(sub is not k and f.attr in sub.methods and sub.methods[f.attr] is not fn for sub in repo.subclasses(k.name)):
+                        return f"{k2.name}.{fn.name}", fn, k, False
         if isinstance(f, ast.Name):
             mod = module
             if not wanted(f.id):
